@@ -486,6 +486,10 @@ class ComponentLevel3( ComponentLevel2 ):
               for obj in v.get_sibling_slices():
                 if obj.slice_overlap( v ):
                   if obj in writer_prop and writer_prop[ obj ]:
+                    # v may already be the writer thanks to an ancestor
+                    # (a block that writes both s.x and s.x[0:2])
+                    if has_writer and writer is v:
+                      break
                     assert not has_writer
                     has_writer, writer = True, v
                     # Shunning: is breaking out of here enough? If we
